@@ -151,7 +151,7 @@ CORE_SETS = [(), ('trough',), ('amp',), ('amp', 'trough')]
 def spaces(tier, seed):
     ev = Pipeline()
     out = []
-    if tier == 'quick':
+    if True:
         al6, al5 = S.alphabet(6), S.alphabet(5)
         out.append(ProductSpace('W(6,5)xcore', S.word_dims(al6, 5) + [CORE_SETS], ev,
                                 describe='all 5-letter words over 6 letters x 4 core option sets',
@@ -170,16 +170,20 @@ def spaces(tier, seed):
         out.append(ProductSpace('W(3,7)xlong', S.word_dims(al3, 7) + [longs], ev,
                                 describe='7-letter words x the deviations that need longer signals (43-tap filter, boundary 12)',
                                 bounds={'letters': al3, 'option_sets': len(longs)}))
-    else:
-        al = S.alphabet(8, seed, extra=2)
-        out.append(ProductSpace('W(10,5)xcore', S.word_dims(al, 5) + [CORE_SETS], ev,
+    if tier != 'quick':
+        # thorough = everything above + larger word sets and deeper option deviations
+        al = S.alphabet(8, seed, extra=0)
+        out.append(ProductSpace('W(8,5)xcore', S.word_dims(al, 5) + [CORE_SETS], ev,
                                 bounds={'letters': al, 'option_sets': len(CORE_SETS)}))
-        out.append(ProductSpace('W(6,6)xcore', S.word_dims(S.alphabet(6), 6) + [CORE_SETS], ev,
-                                bounds={'letters': S.alphabet(6), 'option_sets': len(CORE_SETS)}))
+        ex = S.alphabet(0, seed, extra=2)
+        out.append(ProductSpace('Wextra(2+3,5)xcore', S.word_dims(ex + S.alphabet(3), 5) + [CORE_SETS], ev,
+                                describe='words over the two seed-selected extra letters + a, b, d', bounds={'letters': ex + S.alphabet(3)}))
+        out.append(ProductSpace('W(6,6)xcentring', S.word_dims(S.alphabet(6), 6) + [[(), ('trough',)]], ev,
+                                bounds={'letters': S.alphabet(6)}))
         two = S.option_sets(2)
-        out.append(ProductSpace('W(6,5)x2dev', S.word_dims(S.alphabet(6), 5) + [two], Pipeline(fit_too=False),
-                                bounds={'letters': S.alphabet(6), 'option_sets': len(two), 'max_deviations': 2}))
-        menu = ['trough', 'amp', 'nc2', 'ns.5', 'b5', 'band5_12', 'fs128', 'nosamp', 'thr1', 'x1024', 'neg']
+        out.append(ProductSpace('W(3,5)x2dev', S.word_dims(S.alphabet(3), 5) + [two], Pipeline(fit_too=False),
+                                bounds={'letters': S.alphabet(3), 'option_sets': len(two), 'max_deviations': 2}))
+        menu = ['trough', 'amp', 'ns.5', 'b5', 'fs128', 'nosamp', 'x1024', 'neg']
         full = [c for k in range(len(menu) + 1) for c in __import__('itertools').combinations(menu, k) if S.compatible(c)]
         out.append(ProductSpace('W(4,5)xfull', S.word_dims(S.alphabet(4), 5) + [full], Pipeline(fit_too=False),
                                 bounds={'letters': S.alphabet(4), 'option_sets': len(full),
